@@ -63,8 +63,8 @@ VAL_FAULTS = ["range-get-idx", "slice-get-idx", "int-len", "int-push", "int-assi
 IDXKINDS = ["len", "neglen1", "far", "negfar", "max", "min"]
 # Cells that failed on the pinned tree and were repaired (regress/C12/*.case, known_findings.txt `fixed:` lines): a source
 # that is not iterable / NULL for assign and concat
-HELD_SEQ = ["assign-nonseq", "assign-null", "concat-nonseq"]
-HELD_MAP = ["assign-nonmap", "assign-null"]
+HELD_SEQ = ["assign-nonseq", "assign-null", "concat-nonseq", "assign-strsrc"]
+HELD_MAP = ["assign-nonmap", "assign-null", "assign-filter", "assign-filter-none", "assign-strsrc"]
 SEQ_FAULTS = SEQ_FAULTS + HELD_SEQ
 MAP_FAULTS = MAP_FAULTS + HELD_MAP
 # (receiver constructor, dump before/after, [operations the type does not implement]) for the "unimpl" cell: a class that is
@@ -226,6 +226,9 @@ def run_seq(ctx, case):
         # a source that is not iterable / NULL
         src = "null" if f == "assign-null" else "i:5"
         P.add("%s %s %s" % (f.split("-")[0], c, src), expect_exc(*NULLISH))
+    elif f == "assign-strsrc":
+        # a source with Len but neither Iter nor Get (a String)
+        P.add("assign %s s:616263" % c, expect_exc(*NULLISH))
     elif f in ("get-idx", "set-idx", "pop_at-idx"):
         i = bad_index(case["idx"], n)
         if f == "get-idx":
@@ -386,6 +389,17 @@ def run_map(ctx, case):
         P.add("%s %s null" % (f[:3], c), expect_exc("ValueError"))
     elif f in ("assign-nonmap", "assign-null"):
         P.add("assign %s %s" % (c, "null" if f == "assign-null" else "i:5"), expect_exc("ValueError", *WRONG))
+    elif f in ("assign-filter", "assign-filter-none"):
+        # a source that can be iterated but has no `get` (a Filter; one that yields items and one that yields none):
+        # it is not a mapping - ClassError, and the target keeps its bindings
+        P.add("new %8 heap t:Array t:Int i:1 i:2 i:3")
+        P.add("new %%9 heap t:Filter %%8 fn:%s" % ("all" if f == "assign-filter" else "none"))
+        P.add("assign %s %%9" % c, expect_exc("ClassError"))
+        P.add("del %9")
+        P.add("del %8")
+    elif f == "assign-strsrc":
+        # a source with Len but neither Iter nor Get (a String)
+        P.add("assign %s s:616263" % c, expect_exc("ClassError", *WRONG))
     elif f == "get-absent":
         P.add("get %s %s" % (c, absent), expect_exc("KeyError"))
     elif f == "rem-absent":
